@@ -225,11 +225,31 @@ def line(c, x):
     raise ValueError(op)
 
 
+def relayout(x, c):
+    """same values, different memory layout: the documented element placement may not depend on whether the caller's
+    array is C-contiguous (positive strides only: strided view, Fortran order, real part of a complex array)"""
+    import zlib
+    lay = c.get("layout")
+    if lay is None:
+        lay = ["c", "c", "strided", "fortran", "realpart"][zlib.crc32(repr(sorted((k, str(v)) for k, v in c.items())).encode()) % 5]
+    if lay == "c" or x.ndim == 0 or x.size == 0:
+        return x
+    if lay == "strided":
+        big = np.zeros(list(x.shape[:-1]) + [2 * x.shape[-1]], dtype=x.dtype)
+        big[..., ::2] = x
+        big[..., 1::2] = -77
+        return big[..., ::2]
+    if lay == "fortran":
+        return np.asfortranarray(x)
+    z = (x.astype(np.float64) + 1j * (x.astype(np.float64) + 5)).astype(np.complex128)
+    return z.real if x.dtype.kind != "c" else x
+
+
 def run_impl(c, x, via_linop=False):
     import sigpy as sp
     from sigpy import linop
     op = c["op"]
-    x = x.copy()
+    x = relayout(x.copy(), c)
     if op == "resize":
         if via_linop:
             return linop.Resize(c["osh"], c["ish"], ishift=c["ishift"], oshift=c["oshift"])(x)
